@@ -95,6 +95,8 @@ class Spectrum:
     def __truediv__(self, other):
         return self.divide(other)
 
+    __radd__ = __add__
+
     __rmul__ = __mul__
 
     @property
